@@ -841,6 +841,8 @@ class HttpWorld:
             if flags is None:
                 args = opts.pop('args', None)
                 flags = _HTTP_FLAGS[key] = FlagParser.initialize(args, **opts)
+                _HTTP_FLAGS_SNAP[key] = flags_snapshot(flags)
+            self._flags_key, self._flags = key, flags
             for c in self.convs:
                 c.update(state='waiting', events=[], upstream_socks=[], connect_failures=0)
                 for h in c.get('hosts', []):
@@ -904,7 +906,48 @@ class HttpWorld:
                 events=c['events'],
                 unfed=len(c.get('feed', [])) if cs else None,
             )
-        return dict(status=status, iterations=self.k, leftover=leftover, convs=res, stalled=self.stalled, blocked=self.blocked)
+        # the flags object (and the module-level defaults it points to) is shared by every connection of the worker: a
+        # connection that changes it changes how every other connection is served (round-3 seed C05-r3-2)
+        changed = []
+        snap0, snap1 = _HTTP_FLAGS_SNAP.get(self._flags_key), flags_snapshot(self._flags)
+        if snap0 is not None and snap0 != snap1:
+            changed = sorted(k for k in set(snap0) | set(snap1) if snap0.get(k) != snap1.get(k))
+            _HTTP_FLAGS.pop(self._flags_key, None)          # start the next run from a fresh configuration
+            _HTTP_FLAGS_SNAP.pop(self._flags_key, None)
+            try:
+                import importlib, proxy.common.constants as _k
+                for name, val in _DEFAULTS_SNAP.items():
+                    cur = getattr(_k, name, None)
+                    if isinstance(cur, list) and cur != val:
+                        cur[:] = val                       # undo in-place damage to module-level default lists
+            except Exception:
+                pass
+        return dict(status=status, iterations=self.k, leftover=leftover, convs=res, stalled=self.stalled, blocked=self.blocked,
+                    flags_changed=changed)
 
 
+def flags_snapshot(flags):
+    """plain-data view of the worker's shared configuration (lists / dicts / scalars of the flags namespace)"""
+    import copy
+    out = {}
+    for k, v in vars(flags).items():
+        if isinstance(v, (list, tuple, dict, set, str, bytes, int, float, bool, type(None))):
+            try:
+                out[k] = copy.deepcopy(v) if not isinstance(v, (list, tuple)) else [repr(x) if not isinstance(x, (str, bytes, int, float, bool, type(None))) else x for x in v]
+            except Exception:
+                out[k] = repr(v)
+    return out
+
+
+def _defaults_snapshot():
+    import copy
+    try:
+        import proxy.common.constants as _k
+        return {n: list(v) for n, v in vars(_k).items() if n.startswith('DEFAULT_') and isinstance(v, list)}
+    except Exception:
+        return {}
+
+
+_DEFAULTS_SNAP = _defaults_snapshot()
+_HTTP_FLAGS_SNAP = {}
 _HTTP_FLAGS = {}
